@@ -242,7 +242,7 @@ impl SubCheckT for TopDown {
 }
 
 // ---------------------------------------------------------------------------
-// CNFs over 20..34 variables: thousands of component-cache entries per compilation
+// CNFs over 8..34 variables: thousands of component-cache entries per compilation
 // ---------------------------------------------------------------------------
 
 #[derive(Clone, Debug, Serialize, Deserialize)]
@@ -328,6 +328,57 @@ pub fn run_large(case: &BigTopDownCase, st: &mut Stats) -> CaseResult {
             }
         }
     }
+    // conditioning at sizes the truth-table part does not reach (the library's conditioning walks every path, so this
+    // stays at <= 14 variables): the result and its negation conditioned on a few literals, against the clauses on the
+    // probes and against the measure of the conditioned bottom-up reference
+    if n <= 14 {
+        let r = std_b.compile_cnf_topdown(&cnf);
+        let r2 = sem_b.compile_cnf_topdown(&cnf);
+        for k in 0..6u64 {
+            let x = crate::engine::splitmix(case.seed ^ 0xC0D ^ k);
+            let (v, val) = ((x as usize >> 8) % n, x & 1 == 1);
+            let want_m = bdd_measure(ref_b.condition(reference, VarLabel::new_usize(v), val));
+            for (store, c, neg) in [
+                ("standard", std_b.condition(r, VarLabel::new_usize(v), val), false),
+                ("standard", std_b.condition(r.neg(), VarLabel::new_usize(v), val), true),
+                ("semantic", rsdd::builder::TopDownBuilder::condition(&sem_b, r2, VarLabel::new_usize(v), val), false),
+                ("semantic", rsdd::builder::TopDownBuilder::condition(&sem_b, r2.neg(), VarLabel::new_usize(v), val), true),
+            ] {
+                let m = bdd_measure(c);
+                ensure!(
+                    m == if neg { 1.0 - want_m } else { want_m },
+                    format!("C06/condition{}:{}", if neg { "-of-negation" } else { "" }, store),
+                    "{}-variable CNF: the {}diagram conditioned on x{} = {} is satisfied by a fraction {} of all assignments, the conditioned bottom-up reference by {}",
+                    n,
+                    if neg { "negated " } else { "" },
+                    v,
+                    val,
+                    m,
+                    want_m
+                );
+                for a in probes.iter().take(24) {
+                    let mut a2 = a.clone();
+                    a2[v] = val;
+                    ensure!(
+                        bdd_eval(c, a) == (cnf_eval(&clauses, &a2) ^ neg),
+                        format!("C06/condition{}:{}", if neg { "-of-negation" } else { "" }, store),
+                        "{}-variable CNF: the {}diagram conditioned on x{} = {} disagrees with the clauses on an assignment",
+                        n,
+                        if neg { "negated " } else { "" },
+                        v,
+                        val
+                    );
+                }
+            }
+        }
+        st.bump("large.conditionings_checked");
+    }
+    st.bump(match n {
+        0..=14 => "large.vars.8_14",
+        15..=19 => "large.vars.15_19",
+        20..=25 => "large.vars.20_25",
+        _ => "large.vars.26_34",
+    });
     st.flag("large.unsat", ref_measure == 0.0);
     st.add("large.reference_nodes", bdd_nodes(reference).len() as u64);
     if ref_measure > 0.0 && ref_measure < 1.0 {
@@ -339,12 +390,12 @@ pub fn run_large(case: &BigTopDownCase, st: &mut Stats) -> CaseResult {
 impl SubCheckT for TopDownLarge {
     type Case = BigTopDownCase;
     const NAME: &'static str = "topdown_many_variables";
-    const RULE: &'static str = "random CNFs over 20..34 variables (mostly 26..34) with 1.08..2.0 (mostly below 1.35) clauses per variable (3 literals, some 2), linear or pseudo-random decision order, both node stores: thousands of residual components per compilation share the component cache, whose key is only a hash. The result must be the false constant iff the bottom-up BDD of the same CNF (same order) is, must be satisfied by exactly the same fraction of assignments (uniform measure computed by the harness on both diagrams, exact in f64), must agree with direct evaluation of the clauses on 32 pseudo-random and up to 64 clause-falsifying assignments, and the paths those assignments take must not repeat a variable. Non-trivial: satisfiable and not a tautology";
+    const RULE: &'static str = "random CNFs over 8..34 variables (mostly 26..34; up to 14 variables the result and its negation are also conditioned on six literals and held to the clauses and to the conditioned reference) with 1.08..2.0 (mostly below 1.35) clauses per variable (3 literals, some 2), linear or pseudo-random decision order, both node stores: thousands of residual components per compilation share the component cache, whose key is only a hash. The result must be the false constant iff the bottom-up BDD of the same CNF (same order) is, must be satisfied by exactly the same fraction of assignments (uniform measure computed by the harness on both diagrams, exact in f64), must agree with direct evaluation of the clauses on 32 pseudo-random and up to 64 clause-falsifying assignments, and the paths those assignments take must not repeat a variable. Non-trivial: satisfiable and not a tautology";
     fn cases(tier: Tier) -> u32 {
-        tier.pick(400, 12_000)
+        tier.pick(480, 14_000)
     }
     fn strategy(_tier: Tier) -> BoxedStrategy<BigTopDownCase> {
-        (prop_oneof![1 => 20u8..=25, 4 => 26u8..=34], prop_oneof![4 => 108u32..=135, 1 => 136u32..=200])
+        (prop_oneof![1 => 8u8..=19, 1 => 20u8..=25, 4 => 26u8..=34], prop_oneof![4 => 108u32..=135, 1 => 136u32..=200])
             .prop_flat_map(|(nv, ratio)| {
                 let m = (nv as u32 * ratio / 100) as usize;
                 (
